@@ -12,7 +12,7 @@
 //     annotation prefixes, same host-wide key on two ingresses of one host, same
 //     redirect-from / alias on two hosts, external authentication, oauth, basic auth, tcp);
 //   - Canon: the behaviour (lib/sem) as text with the remaining internal numbering
-//     (`_auth_backendNNN_port`) renamed after what the backend contains.
+//     (`_auth_backendNNN_port`, the value of txn.pathID) renamed / erased.
 package c06
 
 import (
@@ -302,9 +302,17 @@ func PermKeepingKeys(rng *rand.Rand, batch []pipeline.Change) []int {
 
 var authBackRe = regexp.MustCompile(`_auth_backend\d+_\d+`)
 
+// the number of a path inside its backend (txn.pathID) follows the order in which the
+// paths were added; the rules that read it are compared with the ids resolved (cfgnorm)
+var pathIDVarRe = regexp.MustCompile(`"txn\.pathID": "path\d+"`)
+
 // Canon renders a behaviour with `_auth_backendNNN_port` (numbered in processing order)
 // renamed after the servers and rules of that backend.
 func Canon(b *sem.Behaviour) string {
+	return pathIDVarRe.ReplaceAllString(canonAuth(b), `"txn.pathID": "<id>"`)
+}
+
+func canonAuth(b *sem.Behaviour) string {
 	text := b.JSON()
 	names := map[string]string{}
 	for _, be := range b.Backends {
